@@ -74,10 +74,12 @@ theorem Scanner.prep_pushRejected (cfg : ScanCfg) (a : List Occ) (s : Scanner) (
       congr 1
       by_cases hr : (s1.parser.push cfg.lang tok.lower).1.isNone = true
       · simp only [Scanner.prep, hr, if_true]; rfl
-      · simp only [Scanner.prep, hr, Bool.false_eq_true, if_false]
-        have := Scanner.prep_outside cfg a { s1 with parser := (s1.parser.push cfg.lang tok.lower).2 } tok
-        simp only [Scanner.prep] at this
-        rw [this]
+      · by_cases hi : ((s1.parser.push cfg.lang tok.lower).1 == some Err.incomplete) = true
+        · simp only [Scanner.prep, hr, hi, Bool.false_eq_true, if_false, if_true]
+        · simp only [Scanner.prep, hr, hi, Bool.false_eq_true, if_false]
+          have := Scanner.prep_outside cfg a { s1 with parser := (s1.parser.push cfg.lang tok.lower).2 } tok
+          simp only [Scanner.prep] at this
+          rw [this]
   · rw [if_neg hn, if_neg hn]
     simp only [mapPrep]; rw [Scanner.prep_outside]; rfl
 
